@@ -70,6 +70,39 @@ def shapeLiftScope (path : Path) (before : List Stmt) : Except String Shape :=
     .ok ⟨reorderLoops, fun _ => reorderLoopsOk, opath⟩
   | _, _ => .error "lift_scope: unexpected shape"
 
+/-- the candidate readings of the output of `stage_mem` (same candidates as `Rw.checkStageMem`:
+    buffer, window and iterators from the copy-out statement, else from the copy-in statement, else
+    — zero-filled accumulation without copy-out — every buffer windowed in the block) -/
+def stageCands (path : Path) (n : Nat) (accum load store : Bool) (before sb : List Stmt)
+    (xs : Sym) (sh : List Expr) (sa : List Stmt) : List Shape :=
+  let nl := if load then 1 else 0
+  let B' := (sa.drop nl).take n
+  let loadN := if load then peelNest 64 (sa.take 1) else ([], [], [])
+  let storeN := if store then peelNest 64 ((sa.drop (nl + n)).take 1) else ([], [], [])
+  let lg : Option (Option Expr × Stmt) := if load then peelGuard loadN.2.2 else none
+  let sg : Option (Option Expr × Stmt) := if store then peelGuard storeN.2.2 else none
+  let fromCopy := fun (x : Sym) (ridx : List Expr) (iters : List Sym) =>
+    match readWin iters sh ridx with
+    | some w => [(x, w, iters)]
+    | none => []
+  let cands : List (Sym × List WAcc × List Sym) :=
+    match sg, lg with
+    | some (_, .assign x ridx (.read _ _)), _ => fromCopy x ridx storeN.1
+    | some (_, .reduce x ridx (.read _ _)), _ => fromCopy x ridx storeN.1
+    | some _, _ => []
+    | none, some (_, .assign _ _ (.read x ridx)) => fromCopy x ridx loadN.1
+    | none, some (_, .assign _ _ (.lit _)) =>
+      match winOfShape sh with
+      | some w => ((winSymsL (sb.take n)).eraseDups).map (fun x => (x, w, loadN.1))
+      | none => []
+    | none, _ => []
+  let _ := before
+  cands.map (fun (x, w, iters) =>
+    let gl := ((lg.map (·.1)).join).map (renameIters loadN.1 iters)
+    let gs := ((sg.map (·.1)).join).map (renameIters storeN.1 iters)
+    ⟨stageMem x xs w n iters accum load store gl gs B',
+     fun Γ => stageMemOk Γ x xs w n iters accum load store gl gs B', path⟩)
+
 /-- the model shape a real rewrite is an instance of (parameters read off `after`) -/
 def shapeOf (name : String) (path : Path) (k : Nat) (flag : Bool) (before after : List Stmt) :
     Except String Shape :=
@@ -185,6 +218,12 @@ def shapeOf (name : String) (path : Path) (k : Nat) (flag : Bool) (before after 
         | _ => .error "divide_dim: extent k+1 of the output allocation is not an integer literal"
       | _ => .error "divide_dim: unexpected shape"
     else if name = "mult_dim" then .ok ⟨multDim (k / 16) (k % 16), fun _ => multDimOk, path⟩
+    else if name = "rearrange_dim" then
+      -- k = Σ perm[i] * 16^i (as `checkStorage`)
+      match sb with
+      | .alloc _ sh :: _ =>
+        .ok ⟨rearrangeDim (decodePerm sh.length k), fun _ => rearrangeDimOk (decodePerm sh.length k), path⟩
+      | _ => .error "rearrange_dim: unexpected shape"
     else if name = "resize_dim" then
       if flag then .error "no storage model for resize_dim(fold=True)"
       else
@@ -200,6 +239,41 @@ def shapeOf (name : String) (path : Path) (k : Nat) (flag : Bool) (before after 
                 | _ => .lit (.int 0)), path⟩
           | none => .error "resize_dim: the output allocation has no dimension k"
         | _, _ => .error "resize_dim: unexpected shape"
+    else if name = "commute_expr" then
+      match sa with
+      | s' :: _ => .ok ⟨commuteExprWith s', always, path⟩
+      | _ => .error "commute_expr: path invalid in output"
+    else if name = "left_reassociate_expr" then
+      match sa with
+      | s' :: _ => .ok ⟨reassocExprWith s', always, path⟩
+      | _ => .error "left_reassociate_expr: path invalid in output"
+    else if name = "divide_with_recompute" then
+      match sa with
+      | .loop io _ ohi [.loop ii _ _ _ _] _ :: _ =>
+        .ok ⟨divideWithRecompute io ii ohi (k : Int), fun Γ => divideRecomputeOk Γ io ii ohi, path⟩
+      | _ => .error "divide_with_recompute: unexpected shape"
+    else if name = "stage_mem" ∨ name = "stage_mem_all" then
+      -- k = block length (0 read as 1), flag = accum; everything else read off the output
+      match sa with
+      | .alloc xs sh :: sa' =>
+        let n := max k 1
+        let cs :=
+          if sa'.length == sb.length + 2 then stageCands path n flag true true before sb xs sh sa'
+          else stageCands path n flag true false before sb xs sh sa' ++
+               stageCands path n flag false true before sb xs sh sa'
+        match cs.find? (fun c => modelMatches c.f c.path before after) with
+        | some c => .ok c
+        | none => .error "stage_mem: no reading of the output is the model rewrite"
+      | _ => .error "stage_mem: output does not start with an allocation at this path"
+    else if name = "reuse_buffer" then
+      -- path = allocation of the kept buffer x; k = encoded address of the replaced allocation
+      match decodePath 64 k with
+      | none => .error "reuse_buffer: k does not encode an address"
+      | some other =>
+        match sb, other.getLast? with
+        | .alloc x _ :: _, some st =>
+          .ok ⟨reuseBuffer x (st.idx == 0), fun Γ => reuseBufferOk Γ x, other⟩
+        | _, _ => .error "reuse_buffer: path / decoded k do not address two allocations"
     else .error s!"no well-formedness theorem for {name}"
 
 end Exo.WfTie
